@@ -11,7 +11,8 @@ A property module (tools/props/cXX.py) provides:
 import fcntl, hashlib, json, os, random, re, shutil, subprocess, sys, tempfile, time
 
 VERIF = os.path.dirname(os.path.dirname(os.path.abspath(__file__)))
-LEAN = os.path.join(VERIF, "lean")
+LEAN = os.environ.get("VERIF_LEAN", os.path.join(VERIF, "lean"))     # overridable so proof work can be validated in a scratch copy
+OUT = os.environ.get("VERIF_OUT", VERIF)                               # where evidence/ and replays/ are written
 HARNESS = os.path.join(VERIF, "harness")
 REPO = os.environ.get("VERIF_REPO", "/repo")
 sys.path.insert(0, HARNESS)
@@ -302,7 +303,7 @@ def match_known(ctx, mod, prop, line, impl_out, model_out):
 
 def report(ctx, kind, detail, no_input=False):
     """Record a violation; writes the replay file and prints the VIOLATION line."""
-    d = os.path.join(VERIF, "replays", ctx.prop)
+    d = os.path.join(OUT, "replays", ctx.prop)
     os.makedirs(d, exist_ok=True)
     n = len(ctx.violations)
     path = os.path.join(d, "%d-%d.json" % (ctx.seed, n))
@@ -389,8 +390,8 @@ def write_evidence(ctx, level, rule, extra=None, assumptions=None):
         cov.update(extra)
     ev = {"property_id": ctx.prop, "tier": ctx.tier, "seed": ctx.seed, "level": level, "coverage": cov,
           "assumptions": assumptions or [], "wall_s": round(time.time() - ctx.t0, 2), "violations": len(ctx.violations)}
-    os.makedirs(os.path.join(VERIF, "evidence"), exist_ok=True)
-    json.dump(ev, open(os.path.join(VERIF, "evidence", ctx.prop + ".json"), "w"), indent=1)
+    os.makedirs(os.path.join(OUT, "evidence"), exist_ok=True)
+    json.dump(ev, open(os.path.join(OUT, "evidence", ctx.prop + ".json"), "w"), indent=1)
 
 
 def theorems_in(relpath, names, namespace):
